@@ -63,7 +63,7 @@ def run_model(prop, name, consts, *, invariants, props=(), spec=False, timeout=6
 
 def generate(prop, name, consts, *, invariants, timeout=600, workers=4, simulate=None, depth=None):
     fam = FAM[prop]
-    run = vlib.tlc(fam["model"], "gen_%s.cfg" % name, files={"gen_%s.cfg" % name: cfg_text(consts, list(invariants) + ["Emit"], deadlock=not simulate)},
+    run = vlib.tlc(fam["model"], "gen_%s.cfg" % name, files={"gen_%s.cfg" % name: cfg_text(consts, list(invariants) + ["Emit"], deadlock=False)},
                    workers=workers, timeout=timeout, heap="6g", simulate=simulate, depth=depth, seed=vlib.SEED if simulate else None)
     vlib.tlc_must_pass(run, "scenario generation " + name)
     out = sorted(set(js for (js,) in [t for t in run.tagged("CASE") if len(t) == 1]))
